@@ -360,20 +360,23 @@ def known_for(cfg, over=None):
 
     def k(kind, exc):
         site = engine.exc_site(exc) if exc is not None else None
-        if over is not None and over.get("class") == "boundary":
-            return "boundary-value|%s=%r" % (over["key"], over["value"])
+        mech = None
         if kind == "exception":
             if isinstance(exc, RuntimeError) and "initial directions" in str(exc) and cfg.get("proj"):
-                return "projections-with-npt-not-n+1-RuntimeError" if (npt != n + 1 or "growing.ndirs_initial" in up) else "projections-x0-on-a-vertex-RuntimeError"
+                mech = "projections-with-npt-not-n+1-RuntimeError" if (npt != n + 1 or "growing.ndirs_initial" in up) else "projections-x0-on-a-vertex-RuntimeError"
             more_than_n = ("growing.ndirs_initial" in up and (npt > n + 1 or up.get("growing.num_new_dirns_each_iter", 0) >= 2)) or \
                 (up.get("restarts.increase_npt") and (up.get("restarts.increase_npt_amt", 1) != up.get("restarts.hard.increase_ndirs_initial_amt", 1)
                                                       or "growing.ndirs_initial" in up))
             if site in ("controller.py:add_new_direction_while_growing", "controller.py:get_new_direction_for_growing") and \
                     isinstance(exc, (ZeroDivisionError, ValueError, np.linalg.LinAlgError)) and more_than_n:
-                return "growing-with-more-than-n-directions"
+                mech = "growing-with-more-than-n-directions"
             if isinstance(exc, AssertionError) and "npt <= (n+1)(n+2)/2" in str(exc) and up.get("restarts.increase_npt") and \
                     up.get("restarts.max_npt", 0) > (n + 1) * (n + 2) // 2:
-                return "hard-restart-npt-exceeds-quadratic-limit"
+                mech = "hard-restart-npt-exceeds-quadratic-limit"
+        if mech is not None:
+            return mech       # a characterised mechanism (raise site + configuration) takes precedence over "whatever this boundary value did"
+        if over is not None and over.get("class") == "boundary":
+            return "boundary-value|%s=%r" % (over["key"], over["value"])
         return None
     return k
 
